@@ -359,14 +359,20 @@ C09Ret(m, e) ==
   \cup V(\E c \in AllIn(m) : Len(m.ch[c].items) > m.nyield + (IF e.r = "some" THEN 1 ELSE 0) + 1,
          "C09", <<"more than one unmatched item taken from an input">>)
 
+\* chain: the yielded items are the concatenation of the inputs' items in input order; None exactly when the last
+\* input has ended and everything was yielded (that an input is untouched until every earlier one ended is checked
+\* at cpoll).  Only what the property states is demanded: an implementation may hold an item for a later poll.
 C10Ret(m, e) ==
   IF m.fam # "chain" THEN {} ELSE
-     V(e.r = "some" /\ (m.pc = <<>> \/ LastPc(m).r # "some" \/ LastPc(m).v # e.v),
-       "C10", <<"chain yielded something other than the current input's item", e.v>>)
-  \cup V(e.r # "some" /\ PcSome(m) # {}, "C10", <<"an item taken from an input was not yielded">>)
-  \cup V(e.r = "none" /\ \E c \in AllIn(m) : ~Done(m, c), "C10", <<"chain ended before the last input ended">>)
-  \cup V(e.r = "pending" /\ (m.pc = <<>> \/ LastPc(m).r # "pending"), "C10", <<"chain Pending although its current input is not">>)
-  \cup V(e.r = "pending" /\ \A c \in AllIn(m) : Done(m, c), "C10", <<"chain Pending although every input ended">>)
+  LET undeliv(c) == Len(m.ch[c].items) - m.ch[c].deliv
+      holders == {c \in AllIn(m) : undeliv(c) > 0}
+      y == IF e.r = "some" /\ e.v \in m.prod THEN m.vown[e.v] ELSE -1
+      allDone == \A c \in AllIn(m) : Done(m, c) IN
+     V(e.r = "some" /\ y = -1, "C10", <<"chain yielded something no input produced", e.v>>)
+  \cup V(y >= 0 /\ (undeliv(y) = 0 \/ m.ch[y].items[m.ch[y].deliv + 1] # e.v \/ \E c \in holders : c < y),
+         "C10", <<"chain yielded an item twice or out of order", e.v>>)
+  \cup V(e.r = "none" /\ (~allDone \/ holders # {}), "C10", <<"chain ended before the last input ended and everything was yielded">>)
+  \cup V(e.r = "pending" /\ allDone /\ holders = {}, "C10", <<"chain Pending although every input ended">>)
 
 C19Ret(m, e) ==
   IF m.fam \notin {"wait_until", "wait_until_stream"} THEN {} ELSE
